@@ -48,7 +48,7 @@ def gen_cases(rng, tier):
     kind = rng.choice(["eam", "fs"])
     model = spec.gen_eam_model(rng, kind, groute, target="DL_POLY_EAM" if kind == "eam" else "DL_POLY_EAM_fs")
     if groute == "api":
-      model["api_containers"] = rng.choice([None, None, "tuple", "generator", "map"])
+      model["api_containers"] = rng.choice([None, None, "tuple", "generator", "map", "amend_after_write"])
     huge = None
     if i % 8 == 3:
       huge = spec.make_huge(rng, model)
@@ -59,6 +59,10 @@ def gen_cases(rng, tier):
     kind = ["eam", "fs"][i % 2]
     model = spec.exact_boundary_eam(rng, kind, "DL_POLY_EAM" if kind == "eam" else "DL_POLY_EAM_fs", "api" if route.startswith("api") else "potable")
     cases.append({"route": route, "model": model, "style": rng.randrange(1 << 30), "huge": None})
+  # row-count sweep (everything small, m*10^k, 2^k, multiples of 5000, each with neighbours): structure and end values
+  szs = spec.edge_sizes(tier, multiple_of=1, lo=2)
+  for c0 in range(0, len(szs), 12):
+    cases.append({"kind": "sizes", "sizes": szs[c0:c0 + 12], "route": "api_legacy", "model": None, "style": 0})
   return cases
 
 
@@ -86,6 +90,15 @@ def produce(ctx, model, route, rng):
 
 
 def run_case(case, ctx):
+  if case.get("kind") == "sizes":
+    import sizesweep
+    ctx.cls("kind:row_count_sweep")
+    for n_ in case["sizes"]:
+      ctx.cls(sizesweep.size_class(n_))
+      if not (sizesweep.check_tabeam(ctx, n_)):
+        return
+    ctx.nontrivial(True)
+    return
   model = case["model"]
   route = case["route"]
   fs = model["type"] == "fs"
